@@ -1,2 +1,16 @@
 import Emitter.Props.C04
-#print axioms Emitter.C04.placeholder
+#print axioms Emitter.C04.merge_is_max
+#print axioms Emitter.C04.nonneg_preserved
+#print axioms Emitter.C04.nodup_preserved
+#print axioms Emitter.C04.local_ops_are_updates
+#print axioms Emitter.C04.idempotent
+#print axioms Emitter.C04.commutative
+#print axioms Emitter.C04.associative
+#print axioms Emitter.C04.converge
+#print axioms Emitter.C04.converge_active
+#print axioms Emitter.C04.schedule_converge
+#print axioms Emitter.C04.active_iff
+#print axioms Emitter.C04.active_after_add
+#print axioms Emitter.C04.inactive_after_del
+#print axioms Emitter.C04.durable_same_state
+#print axioms Emitter.C04.durable_has
